@@ -8,7 +8,7 @@ From Coq Require Import Reals.
 From Flocq Require Import Core.Core IEEE754.BinarySingleNaN.
 From RJ Require Model.Base64 Proofs.Base64_arith_proofs Proofs.Base64_proofs.
 From RJ Require Model.Utf8Codec Proofs.Utf8Codec_proofs.
-From RJ Require Model.JsonParse Proofs.JsonParse_proofs.
+From RJ Require Model.JsonParse Proofs.JsonParse_proofs Proofs.JsonString_proofs.
 From RJ Require Model.Esc Proofs.Esc_proofs.
 Local Open Scope N_scope.
 
@@ -188,6 +188,15 @@ Theorem C20_json_ws_exact :
      parse_json (c :: s) = Err {| je_line := 0; je_col := 0; je_kind := EExpectedValue |}).
 Proof. split; [exact ws_exact | exact rejects_non_value_start]. Qed.
 
+(* round trip of strings with the model's minimal printer (quote, backslash and C0 controls
+   escaped, everything else raw): the lexer reads the printed string back, whatever follows *)
+Theorem C20_json_string_roundtrip : forall s,
+  parse_json (print_string s) = Ok (JStr s) /\
+  (forall rest line col, exists col',
+     lex_string {| lx_line := line; lx_col := col; lx_rem := print_string s ++ rest |} =
+     Ok (Some (s, {| lx_line := line; lx_col := col'; lx_rem := rest |}))).
+Proof. intros s. split; [apply JsonString_proofs.parse_print_string | apply JsonString_proofs.lex_string_print_string]. Qed.
+
 Example C20_json_nonvacuous :
   (* {"a":1,"a":2} *)
   parse_json [123; 34; 97; 34; 58; 49; 44; 34; 97; 34; 58; 50; 125] =
@@ -223,6 +232,16 @@ Theorem C20_dollars_doubling : forall s,
   (forall x, x <> 36 -> count x (escape_dollars s) = count x s).
 Proof. intros s. split; [apply dollars_undouble | apply dollars_doubling]. Qed.
 
+(* std.parseJson(std.escapeStringJson(s)) = s, for the escaper with the C0 range of the current
+   source (0x1F; the check verifies on every run that the source still has that range) *)
+Theorem C20_parse_escape_json : forall s, JsonParse.parse_json (escape_json 31 s) = Ok (JsonParse.JStr s).
+Proof. exact JsonString_proofs.parse_escape_json. Qed.
+
+(* with the snapshot's range (0x19) the property failed: U+001A is emitted raw and rejected *)
+Theorem C20_escape_json_0x19_refuted : exists s e,
+  JsonParse.parse_json (escape_json 25 s) = Err e.
+Proof. exists [26]. eexists. exact JsonString_proofs.escape_json_0x19_refuted. Qed.
+
 Example C20_esc_nonvacuous :
   escape_bash [97; 39; 98] = [39; 97; 39; 34; 39; 34; 39; 98; 39] /\
   escape_xml [60; 38; 39] = [38; 108; 116; 59; 38; 97; 109; 112; 59; 38; 97; 112; 111; 115; 59] /\
@@ -254,8 +273,11 @@ Print Assumptions C20_json_rejects_control_chars.
 Print Assumptions C20_json_rejects_leading_zero.
 Print Assumptions C20_json_rejects_trailing.
 Print Assumptions C20_json_ws_exact.
+Print Assumptions C20_json_string_roundtrip.
 Print Assumptions C20_json_nonvacuous.
 Print Assumptions C20_bash_unescape_escape.
 Print Assumptions C20_xml_escape_no_specials.
 Print Assumptions C20_dollars_doubling.
+Print Assumptions C20_parse_escape_json.
+Print Assumptions C20_escape_json_0x19_refuted.
 Print Assumptions C20_esc_nonvacuous.
